@@ -37,6 +37,7 @@ class Sym:
         self.bounds = {}   # atom -> (lower Lin, upper Lin)
         self.fresh_n = 0
         self.paths_limit = 64
+        self.calls = []    # (call node, state at the call) in execution order of the current path set
 
     def fresh(self, hint):
         self.fresh_n += 1
@@ -122,6 +123,9 @@ class Sym:
         for s in stmts:
             nxt = []
             for σ in states:
+                if '__done__' in σ:
+                    nxt.append(σ)
+                    continue
                 nxt.extend(self.step(s, σ, decide))
                 if len(nxt) > self.paths_limit:
                     raise F.AnalysisBroken('too many paths in symbolic evaluation')
@@ -159,7 +163,17 @@ class Sym:
                 σ[l['n']] = cur.add(self.ev(s['c'][1], σ), 1 if s['op'] == '+=' else -1)
             return [σ]
         if k == 'CallExpr':
+            self.calls.append((s, dict(σ)))
             self.kill_addr_args(s, σ)
+            return [σ]
+        if k == 'UnaryOperator' and s['op'] in ('++', '--'):
+            l = F.strip(s['c'][0])
+            if l['k'] == 'DeclRefExpr':
+                cur = σ.get(l['n'], Lin({l['n'] + '0': 1}))
+                σ[l['n']] = cur.add(Lin(const=1 if s['op'] == '++' else -1))
+            return [σ]
+        if k in ('ContinueStmt', 'BreakStmt', 'ReturnStmt'):
+            σ['__done__'] = Lin(const=1)
             return [σ]
         if k == 'DeclStmt':
             for d in s['decls']:
